@@ -37,7 +37,10 @@ STARTS = {
     'empty_dict': {},
     'dict_ab': {'a': 'two', 'b': 'str'},
     'dict_ba': {'b': 'tuple_rep', 'a': 'range2'},
+    # names that mean something elsewhere in the library (keys grid_search adds to its results, bookkeeping words)
+    'dict_special': {'score': 'two', 'records': 'one', 'index': 'str'},
 }
+SPECIAL_NAMES = ['score', 'records', 'index', 'self']
 
 META = {
     'rule': 'BFS over declaration histories per constructor variant; build() twice in every state; '
@@ -87,6 +90,7 @@ class Harness:
         self.values = list(values)
         self.config = {'start': start, 'values': self.values}
         self.cn = Canon()
+        self.names = SPECIAL_NAMES if start == 'dict_special' else NAMES
 
     def fresh(self):
         w = World()
@@ -108,10 +112,12 @@ class Harness:
 
     def ops(self, w):
         ops = []
-        for n in NAMES:
+        for n in self.names:
             ops += [['add', n, v] for v in self.values]
             ops.append(['remove', n])
         ops += [['add', 3, 'int'], ['remove', 'zz'], ['ctor_bad'], ['build']]
+        if hasattr(w, 'src'):
+            ops.append(['edit_source'])
         return ops
 
     def apply(self, w, op):
@@ -119,6 +125,19 @@ class Harness:
         if op[0] == 'build':
             # building is an operation of its own: whatever build() remembers must not show in later builds
             self.check(w)
+            return
+        if op[0] == 'edit_source':
+            # the caller goes on using ITS dictionary (e.g. to derive the next list): the lists built from it earlier
+            # keep the declaration they were given
+            if 'late' in w.src:
+                del w.src['late']
+                k0 = next(iter(w.src), None)
+                if k0 is not None:
+                    w.src[k0] = ['changed', 'by', 'caller']
+            else:
+                w.src['late'] = [1, 2, 3]
+            w.src_keys = list(w.src)
+            w.src_edits = getattr(w, 'src_edits', 0) + 1
             return
         if op[0] == 'add':
             name, vk = op[1], op[2]
@@ -158,7 +177,8 @@ class Harness:
                                 expected=w.src_keys, observed=list(w.src))
             other = [{k: _py(v) for k, v in d.items()} for d in w.pl2.build()]
             if other != product(w.decl2):
-                raise Violation('editing one ParameterList changed another list built from the same dictionary',
+                raise Violation('a second ParameterList built from the same dictionary no longer builds the product of what the '
+                                'dictionary declared when the list was constructed',
                                 expected=product(w.decl2)[:6], observed=other[:6])
         exp = product(w.decl)
         r1 = w.pl.build()
@@ -191,7 +211,7 @@ class Harness:
         return self.cn(w.pl)
 
     def refstate(self, w):
-        return tuple(w.decl)
+        return (tuple(w.decl), min(getattr(w, 'src_edits', 0), 2))
 
     def outcome(self, w):
         return w.last
@@ -272,10 +292,12 @@ def run(ctx):
         plan = [('empty', vals, 2), ('dict_ab', vals[:5], 2)]
     elif ctx.tier == 'quick':
         vals = ['int', 'str', 'empty', 'one', 'two', 'tuple_rep', 'range2', 'nparr', 'none', 'np2d', 'np0d']
-        plan = [('empty', vals, 3), ('dict_ab', vals[:5], 2), ('empty_dict', vals[:3], 1), ('dict_ba', vals[3:8], 2)]
+        plan = [('empty', vals, 3), ('dict_ab', vals[:5], 2), ('empty_dict', vals[:3], 1), ('dict_ba', vals[3:8], 2),
+                ('dict_special', vals[:5], 2)]
     else:
         vals = list(VALUES)
-        plan = [('empty', vals, 40), ('dict_ab', vals, 3), ('empty_dict', vals, 2), ('dict_ba', vals, 3)]
+        plan = [('empty', vals, 40), ('dict_ab', vals, 3), ('empty_dict', vals, 2), ('dict_ba', vals, 3),
+                ('dict_special', vals, 3)]
     for start, v, depth in plan:
         h = Harness(start, v)
         r = hbfs.explore(ctx, h, start, max_depth=depth, procs=ctx.procs)
